@@ -106,6 +106,12 @@ def _eff(ck, prog, E, api):
                     for g in cm.funcs.values():
                         if g.cls == cls and g.name != "__init__" and g.key in E.sum:
                             flds |= {a.split(".")[0] for a in E.sum[g.key].self_writes}
+                    # a field that is a result table of the helper object (`if k not in self.T: self.T[k] = ...`) is read before it is assigned by
+                    # design: whether that is observable is MEMO-KEY's verdict on the table, not a carried state
+                    for fld in sorted(flds):
+                        vs_ = [r["verdict"] for r in memo_res if r["site"].scope == "object" and r["site"].cls == cls and r["site"].table.split("__")[-1] == fld.split("__")[-1]]
+                        if vs_ and all(v_ == "ok" for v_ in vs_):
+                            flds.discard(fld)
                     carried = {}
                     for g in cm.funcs.values():
                         if g.cls != cls or g.name == "__init__":
@@ -421,6 +427,10 @@ def _fresh_ctors(ck, prog):
 
 
 # ----------------------------------------------------------------------------------------- ALIAS
+# methods of Sequence whose result is a python number (their formulas are what C01-C09 decide)
+SCALAR_METHODS = {"delta", "deltaMax", "deltaForm", "sigma", "kappa", "FCR", "FER", "NCPR", "Fplus", "Fminus", "countPos", "countNeg", "countNeut",
+                  "meanHydropathy", "uverskyHydropathy", "charge_at_pH", "Omega", "kappa_X", "sequence_charge_decoration", "isoelectric_point",
+                  "mean_net_charge", "kappa_at_maxPhos", "phasePlotRegion", "molecular_weight", "fraction_disorder_promoting"}
 IMMUTABLE_CALLS = {"int", "float", "str", "len", "round", "abs", "min", "max", "sum", "bool", "tuple", "frozenset"}
 MUTABLE_CALLS = {"list", "dict", "set", "np.array", "np.zeros", "np.vstack", "np.arange", "np.asarray", "sorted", "bytearray"}
 
@@ -447,6 +457,8 @@ def _immutable_result(prog, f, node, depth=0):
         callee = prog.resolve_call(f, node) if f is not None else None
         if callee is None:
             return None
+        if callee.cls == "Sequence" and callee.name in SCALAR_METHODS:
+            return True                # numbers (deltaMax: a number, or a (number, str) pair)
         ks = [_immutable_result(prog, callee, r.value, depth + 1) for r in bind.returns_of(callee)]
         if not ks:
             return True            # returns None
@@ -483,10 +495,18 @@ def _table_element(ck, prog, f, o, tabs):
             v = r.value
             if v is None:
                 continue
+            if getattr(t, "slot", False) and isinstance(v, ast.Attribute) and v.attr == name:
+                continue                # a one-slot cache: the field IS the stored value - judged by its mutability like any element
             if isinstance(v, ast.Name) and v.id == name or (isinstance(v, ast.Attribute) and v.attr == name):
                 return False            # the table itself escapes
             if isinstance(v, ast.Name) and isinstance(t.value, ast.Name) and v.id == t.value.id:
                 continue                # `T[key] = value; return value`: the very object that was stored
+            if isinstance(v, ast.Name) and isinstance(t.value, (ast.Tuple, ast.List)) and any(isinstance(e, ast.Name) and e.id == v.id for e in t.value.elts):
+                # `T = (k, value); return value`: a component of what was stored is handed out as it is
+                if _immutable_result(prog, g, v) is False:
+                    return False
+                direct = False
+                continue
             if not (isinstance(v, ast.Subscript) and unparse(v.value).split(".")[-1] == name):
                 direct = False
     if kinds == {True}:
